@@ -21,6 +21,7 @@ from __future__ import annotations
 
 import asyncio
 import copy
+import json
 
 _LOOP = None
 
@@ -227,6 +228,11 @@ def _ref_num(ref, issued_before):
     return -1000 - ref if ref >= 0 else -1
 
 
+def _jsame(a, b):
+    """JSON equality with JSON types (True is not 1)"""
+    return json.dumps(a, sort_keys=True) == json.dumps(b, sort_keys=True)
+
+
 def model_line(case, obs):
     if obs.get("harness_error"):
         return None
@@ -260,7 +266,7 @@ def model_line(case, obs):
                 if "version" in spec:
                     o["version"] = spec["version"]
             rq = [o["version"]] if "version" in o else []
-            if not any(a[0] == rq for a in answers):
+            if not any(_jsame(a[0], rq) for a in answers):
                 answers.append([rq, st["out"][2]])
             ops.append([now, "I", o])
             issued = max(issued, st["out"][1] + 1)
